@@ -439,12 +439,14 @@ def examine(ctx, b, name, text, exp_src, cfgs, idx, gen_file=None, model_exe=Non
         shutil.copy(exp_src, exp_abs)
     for tool in tools:
         ref = None
+        agreed = True
         for cfg in cfgs:
             rc, wd, out, path, err = run_tool(b, tool, exp_abs, root, cfg)
             snap = snapshot(wd) if rc == 0 else {}
             if rc == 0 and len(ctx.violations) < 3:
                 lk = leaks(tool, snap, path, wd, exp_abs)
                 if lk:
+                    agreed = False
                     ctx.violation(f"{tool}:leak:{lk[1]}", f"[{name}] a file generated by {tool} contains {lk[1]}: {lk[0]}: {lk[2]!r} (configuration {cfg.name})",
                                   {"express": text if text is not None else f"<shipped file {exp_src}>", "tool": tool, "configurations": [cfg_dict(cfg), cfg_dict(cfg)],
                                    "how": "run the tool on the file and grep its output tree for the path naming the input, the working directory, $HOME and environment values"})
@@ -480,12 +482,107 @@ def examine(ctx, b, name, text, exp_src, cfgs, idx, gen_file=None, model_exe=Non
                     what = (f"output of {tool} differs between configuration {ref[3].name} and {cfg.name}: {d[0]} {d[1]}: "
                             f"{(d[2] or [b''])[0][:160]!r} vs {(d[3] or [b''])[0][:160]!r}")
             if what:
+                agreed = False
                 ctx.violation(key, f"[{name}] {what}",
                               {"express": text if text is not None else f"<shipped file {exp_src}>", "tool": tool,
                                "configurations": [cfg_dict(ref[3]), cfg_dict(cfg)],
                                "how": "run the tool twice on the file in two empty directories under the two configurations and `diff -r`"})
                 break
+        # only when the runs in empty directories agreed with each other: otherwise a difference here says nothing about the directory
+        if ref is not None and ref[0] == 0 and agreed and len(ctx.violations) < 3 and os.path.getsize(exp_abs) < 200_000:
+            pv = prior_state_clause(ctx, b, tool, name, text, exp_abs, root, ref[1])
+            if pv:
+                sname, f, detail, info = pv
+                ctx.violation(f"{tool}:output-depends-on-files-left-in-the-directory",
+                              f"[{name}] {tool} run in a directory prepared by [{sname}] writes {f} differently from a run in an empty directory: {detail}",
+                              dict({"express": text if text is not None else f"<shipped file {exp_src}>", "tool": tool, "scenario": sname,
+                                    "configurations": [cfg_dict(Config("base")), cfg_dict(Config("base"))],
+                                    "how": "in ONE directory: do the first run described under first_run, then run the tool on the file (no -o); compare each file it writes with the "
+                                           "same file after a run in an empty directory"}, **info))
     shutil.rmtree(root, ignore_errors=True)
+
+
+def run_in(b, tool, path, wd, extra=(), limit=20):
+    """run a tool in an EXISTING directory (nothing is cleaned); -> rc"""
+    env = {"PATH": "/usr/bin:/bin", "LD_LIBRARY_PATH": b.lib, "LC_ALL": "C", "HOME": HOME_VALUE, "ASAN_OPTIONS": "detect_leaks=0"}
+    exe = G.build_scanner(b) if tool == "schema_scanner" else b.tool(tool)
+    try:
+        return subprocess.run([exe] + list(extra) + [path], cwd=wd, env=env, capture_output=True, timeout=limit).returncode
+    except subprocess.TimeoutExpired:
+        return "timeout"
+
+
+LONGER_REVISION = ("ENTITY zz_earlier_revision_entity;\n" + "".join(f"  zz_attr_{i:02d} : OPTIONAL LIST [0:?] OF STRING;\n" for i in range(24)) + "END_ENTITY;\n")
+PRIOR_OPTIONS = {"exppp": [["-l", "40"], ["-t"]],      # a first run with other options (shorter lines / tail comments = longer output)
+                 "exp2cxx": [["-L"], ["-a"]], "exp2python": [["-S"]]}
+
+
+def prior_state_clause(ctx, b, tool, name, text, exp_abs, root, ref_snap):
+    """"independent of … the order of earlier runs": whatever an earlier run (or anything else) left in the working
+    directory under the names the tool writes, every file the tool writes must have exactly the bytes it has after a
+    run in an empty directory.  Scenarios: an earlier run on a LONGER revision of the same schema(s); an earlier run with
+    other options; pre-existing files with the output names that are longer / shorter / read-only.  (Files of
+    declarations that only the earlier revision had are left over by design — the generators do not clean — and are not
+    compared.)  -> None or (scenario, file, detail, extra replay info)"""
+    src = open(exp_abs, encoding="latin-1").read()
+    m = re.search(r"(?im)^\s*END_SCHEMA\s*;", src)
+    st = os.stat(exp_abs)
+    scenarios = []
+    if m:
+        scenarios.append(("after-a-longer-revision", "revision", None))
+    for opts in PRIOR_OPTIONS.get(tool, []):
+        scenarios.append(("after-a-run-with-" + "".join(opts), "options", opts))
+    scenarios += [("over-longer-files", "garbage", "longer"), ("over-shorter-files", "garbage", "shorter"), ("over-read-only-longer-files", "garbage", "readonly")]
+    for sname, kind, arg in scenarios:
+        wd = os.path.join(root, tool, "prior-" + sname)
+        shutil.rmtree(wd, ignore_errors=True)
+        os.makedirs(wd)
+        extra_info = {}
+        if kind == "revision":
+            longer = src[:m.start()] + LONGER_REVISION + src[m.start():]
+            try:
+                open(exp_abs, "w", encoding="latin-1").write(longer)
+                rc1 = run_in(b, tool, exp_abs, wd)
+            finally:
+                open(exp_abs, "w", encoding="latin-1").write(src)
+                os.utime(exp_abs, (st.st_atime, st.st_mtime))
+            if rc1 != 0:
+                continue
+            extra_info = {"first_run": "the same file with this inserted before the first END_SCHEMA", "inserted": LONGER_REVISION}
+        elif kind == "options":
+            if run_in(b, tool, exp_abs, wd, extra=arg) != 0:
+                continue
+            extra_info = {"first_run": f"{tool} {' '.join(arg)} <file>"}
+        else:
+            for f, data in ref_snap.items():
+                p = os.path.join(wd, f)
+                os.makedirs(os.path.dirname(p), exist_ok=True)
+                first = data.split(b"\n", 1)[0] + b"\n"       # looks like an earlier output of the tool itself
+                body = first if arg == "shorter" else first + b"-- left over by an earlier run --\n" * (len(data) // 30 + 40)
+                open(p, "wb").write(body)
+                if arg == "readonly":
+                    os.chmod(p, 0o444)
+            extra_info = {"first_run": f"files with the names the tool writes, {arg} than its output, starting with the output's first line"}
+        rc = run_in(b, tool, exp_abs, wd)
+        ctx.count(1, key=(name, tool, "prior", sname))
+        ctx.hist("runs", f"{tool}/prior-state:{sname}")
+        if rc != 0:
+            # refusing to overwrite (e.g. a read-only file) with a non-zero status is not a wrong output
+            ctx.hist("prior-state", f"{tool}: exit {rc} {sname}")
+            continue
+        now = snapshot(wd)
+        for f, data in ref_snap.items():
+            if now.get(f) != data:
+                got = now.get(f)
+                if got is None:
+                    detail = "file not written"
+                else:
+                    a, g = data.split(b"\n"), got.split(b"\n")
+                    i = next((i for i in range(min(len(a), len(g))) if a[i] != g[i]), min(len(a), len(g)))
+                    detail = f"{len(got)} bytes instead of {len(data)}; first difference at line {i+1}: {g[i:i+1]} vs {a[i:i+1]}"
+                return sname, f, detail, extra_info
+        ctx.hist("prior-state", f"{tool}: identical {sname}")
+    return None
 
 
 def alone_clause(ctx, b, name, gen_file, root_idx):
@@ -544,7 +641,7 @@ def run(ctx):
     ]
     ctx.cov["partial"].append({"theorem": "C12_bound_legacy_partial / C12_bound_current",
                                "excluded": "under the legacy rule: bounds that are resolved identifiers (constants, attributes, derived attributes) — there the output does depend on an address (C12_bound_legacy_witness)"})
-    ctx.lean("StepModel.Props.C12", exes=["m_c12"], extractors=["genbound", "scanner", "exphash", "refout"])
+    ctx.lean("StepModel.Props.C12", exes=["m_c12"], extractors=["genbound", "scanner", "exphash", "refout", "outopen", "cxxcollect"])
     b = ctx.build("plain")
     model_exe = ctx.model_exe("m_c12")
     if not os.path.exists(model_exe):
@@ -631,7 +728,7 @@ def replay(ctx, path):
     r = d.get("replay", d)
     ctx._disagree = []
     ctx._nonterm = []
-    ctx.lean("StepModel.Props.C12", exes=["m_c12"], extractors=["genbound", "scanner", "exphash", "refout"])
+    ctx.lean("StepModel.Props.C12", exes=["m_c12"], extractors=["genbound", "scanner", "exphash", "refout", "outopen", "cxxcollect"])
     b = ctx.build("plain")
     if "alone" in r:
         root = os.path.join(ctx.work, "alone-replay")
